@@ -125,6 +125,22 @@ Theorem C14_vertex_t_values :
 Proof. exact vertex_t_values_lemma. Qed.
 Print Assumptions C14_vertex_t_values.
 
+Theorem C14_vertex_t_range :
+  forall (F point : Type) (fcmp : F -> F -> option comparison) (fnan : F -> bool) (fadd : F -> F -> F) (fzero : F)
+    (bump : F -> F) (nm : (list F -> res F) -> list (list F) -> res (option (list F))) (sd_tol_ok : bool)
+    (T : Type) (teq : T -> T -> bool) (t_zb t_rad : T -> F) (is_primary : T -> bool) (close_z : F -> F -> bool)
+    (sumF : list F -> F) (mean_z : list T -> F) (sortP : list T -> list T) (vpoint_of : list F -> point)
+    (vcost_val : list T -> list F -> T -> F) (vguess : F -> list F) (tclosest : T -> point -> F)
+    (in_range : F -> Prop),
+  (* the contract of closest_t: C16_closest_t_range_partial *)
+  (forall t q, in_range (tclosest t q)) ->
+  forall (tracks : list T) v rem,
+  find_vertices F point fcmp fnan fadd fzero bump nm sd_tol_ok T teq t_zb t_rad is_primary close_z
+    sumF mean_z sortP vpoint_of vcost_val vguess tclosest tracks = Ok (Some v, rem) ->
+  forall t x, In (t, x) (v_tracks F T v) -> in_range x.
+Proof. exact vertex_t_range_lemma. Qed.
+Print Assumptions C14_vertex_t_range.
+
 (* the hypotheses are satisfiable: an exact instance (numbers = nat) where the conclusions are also computed *)
 Example C14_fit_instance : forall pts, 3 <= length pts ->
   Toy.fit pts <> Panic /\ (forall k, Toy.fit pts = Err k -> k = E_noinit).
